@@ -1,0 +1,12 @@
+//go:build verif
+
+// Contracts for govc (comment-only file; see /verif/DESIGN.md section 3).
+package sign
+
+// Output gate (C01): the session's result is produced only for a signature that the textbook ECDSA equation
+// (contract of ecdsa.Signature.Verify) accepts for exactly this session's public key and message.
+//@ func (*round5).Finalize
+//@   requires r != nil && r.round4 != nil && r.round3 != nil && r.round2 != nil && r.round1 != nil && r.Helper != nil
+//@   requires r.PublicKey != nil && r.BigR != nil
+//@   assert_at[C01] ResultRound "return r.ResultRound(signature)": ecdsa_valid(signature.R, signature.S, r.PublicKey, r.Message)
+//@   assert_at[C01] ResultRound "return r.ResultRound(signature)": typeis(arg1, *ecdsa.Signature) && arg1.(*ecdsa.Signature) == signature
